@@ -510,7 +510,7 @@ class World:
             for I in self.inst.values():
                 if I is not None:
                     I.engine.asl_store.store[arn] = json.loads(json.dumps(recd))
-        self.rec.emit("sm", arn=arn, smtype=typ, mc=_map_concurrency(asl))
+        self.rec.emit("sm", arn=arn, smtype=typ, mc=_map_concurrency(asl), succ=_successors(asl))
         if not hasattr(self, "_types"):
             self._types = {}
         self._types[arn] = _state_types(asl)
@@ -854,6 +854,62 @@ class World:
         I = self.inst[inst]
         r = I.engine.executions.get(arn)
         return dict(r) if r else None
+
+
+def _successors(asl):
+    """[[state name, [names of the states an event may be published for while an event of `state` is being handled]]]:
+    the state itself (retry, re-entry), its Next / Choices / Default / Catch targets, the start states of its branches
+    or item processor; for a state inside a fan-out F also F and F's Catch targets (an error climbs) and, if the state
+    ends its branch, F's Next -- and so on outwards.  "" stands for the start event."""
+    own, parent, terminal, catch, nxt = {}, {}, {}, {}, {}
+    if not (isinstance(asl, dict) and isinstance(asl.get("States"), dict)):
+        return []
+
+    def walk(states, par):
+        for n, st in states.items():
+            if not isinstance(st, dict):
+                continue
+            o = {n}
+            for k in ("Next", "Default"):
+                if isinstance(st.get(k), str):
+                    o.add(st[k])
+            for c in st.get("Choices", []) if isinstance(st.get("Choices"), list) else []:
+                def nexts(rule):
+                    if isinstance(rule, dict):
+                        if isinstance(rule.get("Next"), str):
+                            o.add(rule["Next"])
+                nexts(c)
+            cat = {c["Next"] for c in (st.get("Catch") or []) if isinstance(c, dict) and isinstance(c.get("Next"), str)} if isinstance(st.get("Catch"), list) else set()
+            o |= cat
+            subs = [b for b in (st.get("Branches") or []) if isinstance(b, dict)] if isinstance(st.get("Branches"), list) else []
+            for key in ("Iterator", "ItemProcessor"):
+                if isinstance(st.get(key), dict):
+                    subs.append(st[key])
+            for b in subs:
+                if isinstance(b.get("StartAt"), str):
+                    o.add(b["StartAt"])
+                if isinstance(b.get("States"), dict):
+                    walk(b["States"], n)
+            own[n], parent[n], catch[n] = o, par, cat
+            terminal[n] = bool(st.get("End")) or st.get("Type") in ("Succeed", "Fail")
+            nxt[n] = st.get("Next") if isinstance(st.get("Next"), str) else None
+    walk(asl["States"], None)
+
+    def err_up(n):
+        f = parent.get(n)
+        return set() if f is None else {f} | catch.get(f, set()) | err_up(f)
+
+    def end_up(n):
+        f = parent.get(n)
+        if f is None or not terminal.get(n):
+            return set()
+        return {f} | ({nxt[f]} if nxt.get(f) else set()) | end_up(f)
+    out = []
+    for n in own:
+        out.append([n, sorted(own[n] | err_up(n) | end_up(n))])
+    sa = asl.get("StartAt") if isinstance(asl.get("StartAt"), str) else ""
+    out.append(["", sorted({sa} | own.get(sa, set()))])
+    return out
 
 
 def _quiet_store_finalisers():
